@@ -2,9 +2,9 @@
 
 spec/OAuthFlow.tla is a sequential state machine of AuthorizationCodeHandler.Authorize with the
 environment's choice as a parameter of every action.  TLC
-  (a) checks the design invariants exhaustively (OAuthFlow_mc.cfg; OAuthFlow_lead.cfg adds the document
+  (a) checks the design invariants exhaustively (OAuthFlow_mc.cfg; OAuthFlow_lead.cfg adds the document / challenge
       variants for which the model is expected to violate an invariant: leads, confirmed only by replay;
-      none at present, see LEAD_CFG),
+      at present the challenge "hdr_jslo", see LEAD_CFG),
   (b) dumps the state graph modulo the ghost variables (OAuthFlow_cover.cfg / OAuthFlow_gen.cfg,
       `-dump dot,actionlabels`); the graph is a DAG whose root-to-leaf label sequences are the behaviours:
       a transition cover (every labelled edge), seeded samples, and (thorough) every terminal behaviour of
@@ -23,8 +23,11 @@ PID = "C15"
 ACTIONS = ["Setup", "ParseChallenge", "FetchPRM", "FallbackRootAS", "FetchASM", "UnreadASM", "PredefinedEndpoints", "Register",
            "GetCode", "CheckState", "CheckIss", "Exchange", "Install", "Finish"]
 RESULTS = ["ok", "nil403", "parse", "no_as", "asm", "prereg", "dcr", "noreg", "fetcher", "state", "iss", "exchange", "post"]
-SAFE = ("https", "lo")
-LEAD_CFG = None  # "OAuthFlow_lead.cfg" when OAuthFlow.PRMLeadDocs is not empty
+SCRIPT = ("js", "data", "vbs")
+LEAD_CFG = "OAuthFlow_lead.cfg"  # needed while OAuthFlow.PRMLeadDocs / ChallengeLeads are not empty (else None)
+# URL classes (OAuthFlow!URLClasses: scheme class x authority class x form) that must have been concretised in a URL field
+# of a served metadata document of each kind: tags as written by the harness (c15URLCls.tag), script scheme abstracted
+URL_CLASSES = ("https", "lo", "http", "opaque-script", "script_lo", "script_rem")
 # relation classes of an issuer identifier (OAuthFlow.tla: IssSame, IssEquiv, IssNear); used here only to name
 # signatures and to check that every class was concretised (the verdict is the monitor's)
 ISS_MATCH = ("exact", "slash", "case", "dot")
@@ -222,14 +225,29 @@ def origin_of(e, r):
     if r["doc"] > 0 and r["doc"] <= len(e["served"]):
         d = e["served"][r["doc"] - 1]
         return "%s=%s" % (d["kind"], d["var"])
+    if r["kind"] == "prm" and r["loc"] == "hdr":  # the URL is the challenge's resource_metadata parameter
+        return "cfg=%s" % e["cfg"]["ch"]
     return "cfg=%s/%s" % (e["cfg"]["ch"], e["cfg"]["mcp"])
+
+
+def cls_safe(c):
+    """names only (mirrors OAuthFlow!Safe; the verdict is the monitor's)"""
+    return c["sch"] not in SCRIPT and (c["sch"] == "https" or c["auth"] == "lo")
+
+
+def class_name(tag):
+    """the URL class of a harness tag with the concrete script-capable scheme abstracted away where the harness picks it"""
+    for sfx in ("_lo", "_rem", "_noauth"):
+        if tag.endswith(sfx) and tag[: -len(sfx)] in SCRIPT:
+            return "script" + sfx
+    return tag
 
 
 def primary_sigs(e):
     sigs = {}
     for r in e["reqs"]:
-        if r["cls"] not in SAFE:
-            sigs.setdefault("OnlySafeURLs", set()).add("OnlySafeURLs:%s:%s:%s" % (r["kind"], r["cls"], origin_of(e, r)))
+        if not cls_safe(r["cls"]):
+            sigs.setdefault("OnlySafeURLs", set()).add("OnlySafeURLs:%s:%s:%s" % (r["kind"], class_name(r["tag"]), origin_of(e, r)))
     for d in used_docs(e):
         ok = d["match"] == "exact" if d["kind"] == "prm" else d["match"] in ISS_MATCH
         if not ok:
@@ -285,7 +303,9 @@ def run(tier, seed, replay):
         "server gave at its well-known locations: a document among them that fails the issuer / PKCE / script-scheme check is a failed "
         "check, not absent metadata (a 5xx, network or JSON failure, or an http-non-loopback endpoint in the document, followed by the "
         "fallback is reported as drift only)",
-        "URL classes (https / loopback / script-capable) are computed by the harness with net/url and net/netip",
+        "URL classes (scheme class https / http / script-capable x authority class loopback / other / none x form hierarchical / "
+        "opaque) are computed by the harness with net/url and net/netip; 'an https or loopback URL' is read as: scheme https, or a "
+        "loopback authority under a scheme that is not script-capable (javascript://localhost/... is not a safe request target)",
     ]
     out = vlib.outdir(PID)
     rep = None
@@ -305,9 +325,9 @@ def run(tier, seed, replay):
     v.add_tlc("OAuthFlow_mc.cfg (design invariants, all variant sets)", res)
     if not res.ok:
         raise vlib.MachineryError("OAuthFlow violates its own invariant %s: the model is broken" % res.violation)
-    # 1b. leads: document variants for which the code-shaped model violates an invariant (OAuthFlow.PRMLeadDocs).
-    # There are none at present ("field_js" was one until /repo 7fe7bee): OAuthFlow_mc.cfg then already covers every
-    # variant set and the lead configuration would repeat it.
+    # 1b. leads: variants for which the code-shaped model violates an invariant (OAuthFlow.PRMLeadDocs, ChallengeLeads).
+    # At present: the challenge "hdr_jslo" (resource_metadata = script-capable scheme, hierarchical form, loopback authority),
+    # which checkHTTPSOrLoopback lets through to the client.  ("field_js" was a lead document until /repo 7fe7bee.)
     leads = []
     if LEAD_CFG:
         lead = vlib.run_tlc("OAuthFlowMC", LEAD_CFG, workers=workers, timeout=600, heap_gb=4)
@@ -321,6 +341,13 @@ def run(tier, seed, replay):
     v.add_tlc("OAuthFlow_wit.cfg (discovery goes on after a fatal outcome: NoFallbackAfterRejected must fail)", wit)
     if wit.ok or wit.violation != "NoFallbackAfterRejected":
         raise vlib.MachineryError("vacuity: OAuthFlow_wit.cfg does not violate NoFallbackAfterRejected (%s)" % wit.violation)
+    # 1d. sensitivity of NoScriptSchemes to the URL-class dimension: checkURLScheme left out on the four fields that
+    # checkHTTPSOrLoopback looks at as well must violate it (a script-capable scheme with a loopback authority passes the latter)
+    wit2 = vlib.run_tlc("OAuthFlowMC", "OAuthFlow_wit2.cfg", workers=1, timeout=300, heap_gb=2)
+    vlib.tlc_must_pass(wit2, "OAuthFlow_wit2.cfg")
+    v.add_tlc("OAuthFlow_wit2.cfg (no scheme deny-list on the https-or-loopback-checked fields: NoScriptSchemes must fail)", wit2)
+    if wit2.ok or wit2.violation != "NoScriptSchemes":
+        raise vlib.MachineryError("vacuity: OAuthFlow_wit2.cfg does not violate NoScriptSchemes (%s)" % wit2.violation)
     # 2. behaviours
     wd = vlib.scratch("tlc-")
     dot = os.path.join(wd, "cover.dot")
@@ -435,6 +462,18 @@ def run(tier, seed, replay):
         if e["ares"]["issrel"] != "-":
             rel_seen["iss_param"][e["ares"]["issrel"]] = rel_seen["iss_param"].get(e["ares"]["issrel"], 0) + 1
     v.cov["issuer_relation_classes_observed"] = rel_seen
+    # ... and every URL class in a URL field of a served document of each kind
+    ucls_seen = {"prm": {}, "asm": {}}
+    for e in obs_rows:
+        for d in e["served"]:
+            for t in d["ucls"]:
+                c = "opaque-script" if t in SCRIPT else class_name(t)
+                ucls_seen[d["kind"]][c] = ucls_seen[d["kind"]].get(c, 0) + 1
+    v.cov["url_classes_observed_in_served_documents"] = ucls_seen
+    if not replay:
+        missing_cls = ["%s:%s" % (k, c) for k in ("prm", "asm") for c in URL_CLASSES if c not in ucls_seen[k]]
+        if missing_cls:
+            raise vlib.MachineryError("vacuity: URL classes never concretised in a served document: %s" % missing_cls)
     if not replay:
         want = set(ISS_NEAR) | set(ISS_EQUIV) | {"exact", "slash", "other"}
         missing_rel = ["%s:%s" % (k, c) for k, seen in sorted(rel_seen.items()) for c in sorted(want) if c not in seen
